@@ -175,6 +175,34 @@ def pool_first_failure(n, scale, shift, lo_mult, hi_mult, mode):
     return None
 
 
+def pool_smallest_failure(n, scale, shift, hi_mult):
+    """smallest failing non-negative accumulator just below a tie (failures are monotone within a residue class)"""
+    best = None
+    for d in range(1, 9):
+        if (d - n) % 2:
+            continue
+        jmax = (2 * hi_mult * n - n + d) // (2 * n)
+
+        def acc_of(j):
+            return (2 * n * j + n - d) // 2
+
+        def bad(j):
+            a = acc_of(j)
+            return hw_scale(a, scale, shift) != (2 * a + n) // (2 * n)
+        if jmax < 0 or not bad(jmax):
+            continue
+        lo, hi = 0, jmax
+        while lo < hi:
+            mid = (lo + hi) // 2
+            if bad(mid):
+                hi = mid
+            else:
+                lo = mid + 1
+        if best is None or acc_of(lo) < best:
+            best = acc_of(lo)
+    return best
+
+
 def _pool_worker(job):
     """real quantise_pooling_scale(n) for n in [lo, hi) + exactness oracles; returns failures"""
     lo, hi, full_limit = job
@@ -480,6 +508,7 @@ def run(tier):
     fail16.sort()
     if fail16:
         n, acc, s, sh = fail16[0]
+        acc = pool_smallest_failure(n, s, sh, 32767) or acc
         hs = [(h, n // h) for h in range(1, 257) if n % h == 0 and n // h <= 256] or [(0, 0)]
         note_bad("pooling-16bit", {"function": "quantise_pooling_scale", "n": n, "acc": acc, "dtype": "int16"},
                  {"n": n, "kernel_hxw": hs[:4], "acc": acc, "scale": s, "shift": sh, "got": hw_scale(acc, s, sh),
